@@ -19,7 +19,10 @@ pub fn run(tier: Tier, seed: u64) -> i32 {
         move |_r| HistCfg { ops, lifecycle_ext: true, allow_adaptive: true, seed_growth: true, w_swap: 47, w_liq: 30, w_fees: 5, w_lifecycle: 13, w_clock: 2, w_setters: 2, w_reward: 2, ..Default::default() },
         || vec![Box::new(C05::default()) as Box<dyn Monitor>],
     );
+    let mut acc = acc;
+    acc.merge(crate::checks::hchecks::directed_position_of_a_twin_pool(seed ^ 0x7717, &mut C05::default()));
     rep.acc = acc;
+    rep.floor("twin_pool_position_attempts", 14);
     rep.floor("pool_liquidity_checks_nonzero", 2000);
     rep.floor("tick_checks_nonzero", 5000);
     rep.floor("tick_crossings", 300);
